@@ -5,18 +5,22 @@
 (* is the macro-step Up;Ping (the driver waits for the monitor's ping as   *)
 (* part of the step when the monitor is running), so a request never falls *)
 (* between recovery and ping, where the real code's answer depends on a    *)
-(* 100 ms wall-clock ticker.                                               *)
+(* 100 ms wall-clock ticker.  `hold` (TokenLimit!Wait) lets real time pass *)
+(* during an outage, at most once per outage and anywhere between Down and *)
+(* Up: before the failure has been noticed, or while the monitor is        *)
+(* already pinging (then the monitor is at least that old when Redis comes *)
+(* back), followed by requests to the rescue bucket or not.                *)
 (***************************************************************************)
 EXTENDS TokenLimit, Json
 
 CONSTANTS MaxLen,     \* steps per behaviour
           MaxDown     \* outages per behaviour (0: none)
 
-VARIABLES hist, ndown
+VARIABLES hist, ndown, held
 
-gvars == <<vars, hist, ndown>>
+gvars == <<vars, hist, ndown, held>>
 
-GInit == Init /\ hist = <<out>> /\ ndown = 0
+GInit == Init /\ hist = <<out>> /\ ndown = 0 /\ held = FALSE
 
 UpPing ==
   /\ ~alive
@@ -27,10 +31,11 @@ UpPing ==
 
 GNext ==
   /\ Len(hist) < MaxLen + 1
-  /\ \/ (\E n \in 1..MaxN : Allow(n)) /\ UNCHANGED ndown
-     \/ (\E dc \in 1..MaxStep, ds \in 0..MaxStep : ds <= dc /\ Tick(dc, ds)) /\ out.op # "tick" /\ UNCHANGED ndown
-     \/ Down /\ ndown < MaxDown /\ ndown' = ndown + 1
-     \/ UpPing /\ UNCHANGED ndown
+  /\ \/ (\E n \in 1..MaxN : Allow(n)) /\ UNCHANGED <<ndown, held>>
+     \/ (\E dc \in 1..MaxStep, ds \in 0..MaxStep : ds <= dc /\ Tick(dc, ds)) /\ out.op # "tick" /\ UNCHANGED <<ndown, held>>
+     \/ Down /\ ndown < MaxDown /\ ndown' = ndown + 1 /\ held' = FALSE
+     \/ UpPing /\ UNCHANGED <<ndown, held>>
+     \/ (\E h \in Holds : Wait(h)) /\ ~held /\ held' = TRUE /\ UNCHANGED ndown
   /\ hist' = Append(hist, out')
 
 GSpec == GInit /\ [][GNext]_gvars
